@@ -163,6 +163,18 @@ def run(rep, pdb, tier):
             # the size of the step: |dx| (scalar) or dx.norm_inf() (system), possibly named before the update consumes dx
             test_step, test_resid = [], []
             for f in fs:
+                if f[0] == "bool" and f[2] is True and f[1][0] == "var":
+                    # the test evaluated into an immutable bool before the update (`let converged = dx.abs() <= tol; current -= dx; if converged ..`):
+                    # its operands are read where it was evaluated
+                    bb = ctx.binds.get(f[1][1])
+                    ini = strip(bb.init) if bb is not None and bb.kind == "let" and not bb.mut and bb.init is not None else None
+                    if ini is not None and ini.get("k") == "Binary" and ini.get("op") == "<=" and ctx.term(ini["r"]) == TOL:
+                        lhs = strip(ini["l"])
+                        if lhs.get("k") == "MethodCall" and lhs.get("name") == ("abs" if kind == "scalar" else "norm_inf") and not lhs.get("args"):
+                            rv = strip(lhs["recv"])
+                            if rv.get("k") == "Local" and ("var", rv["v"]) in dx_names:
+                                test_step.append(f)
+                    continue
                 if not (f[0] == "cmp" and f[1] == "<=" and f[3] == TOL):
                     continue
                 mr = _deref(f[2])
